@@ -34,7 +34,7 @@ MANIFEST = {
 
 REQUIRED = ["KV.C13.z_incremental", "KV.C13.normalised", "KV.C13.formula", "KV.C13.ngram_union",
             "KV.C13.single_identity", "KV.C13.spec_eq_tool", "KV.C13.formula_spec", "KV.C13.pass12_refines",
-            "KV.C13.vocab_union", "KV.C13.ngram_union_renumbered", "KV.C13.pass2_stream_refines", "KV.C13.bse_roundtrip", "KV.C13.bse_no_ub", "KV.C13.bse_shift64_witness", "KV.C13.equal_orders_not_stuck", "KV.C13.abort_witness",
+            "KV.C13.vocab_union", "KV.C13.ngram_union_renumbered", "KV.C13.pass2_stream_refines", "KV.C13.pass2_on_sorted_streams", "KV.C13.bse_roundtrip", "KV.C13.bse_no_ub", "KV.C13.bse_shift64_witness", "KV.C13.equal_orders_not_stuck", "KV.C13.abort_witness",
             "KV.C13.termination_fails_mixed_orders", "KV.C13.formula_real", "KV.C13.normalised_real",
             "KV.C13.interp_nonpos", "KV.C13.z_incremental_real"]
 
